@@ -908,11 +908,10 @@ impl Xot {
                 "Cannot replace node with itself or one of its own descendants".to_string(),
             ));
         }
-        // record previous sibling
+        // record previous and next sibling
         let previous_node = self.previous_sibling(replaced_node);
-        if previous_node == Some(replacing_node)
-            || self.next_sibling(replaced_node) == Some(replacing_node)
-        {
+        let next_node = self.next_sibling(replaced_node);
+        if previous_node == Some(replacing_node) || next_node == Some(replacing_node) {
             // the replacing node is already in place, next to the replaced node
             return self.remove(replaced_node);
         }
@@ -922,14 +921,14 @@ impl Xot {
         // now insert the replacing node
         if let Some(previous_node) = previous_node {
             self.insert_after(previous_node, replacing_node)?;
-            // if the replacing text was merged into the previous text node, that
+            // if the replacing text was merged into the text node before it, that
             // node may now be next to the text node that followed the replaced node.
-            // (the previous node itself is gone if moving the replacing node away made
-            // it merge with the text node before it; then there is nothing left to do)
-            if !self.is_removed(previous_node) {
+            // (moving the replacing node away may have merged the previous node
+            // itself into the text node before it, so look from the following node)
+            if let Some(next_node) = next_node {
                 self.remove_consolidate_text_nodes(
-                    Some(previous_node),
-                    self.next_sibling(previous_node),
+                    self.previous_sibling(next_node),
+                    Some(next_node),
                 );
             }
         } else {
